@@ -489,7 +489,7 @@ func (am *ACMEIssuer) doIssue(ctx context.Context, csr *x509.CertificateRequest,
 		certChains, err = client.acmeClient.ObtainCertificate(ctx, params)
 		if err != nil {
 			var prob acme.Problem
-			if errors.As(err, &prob) && prob.Type == acme.ProblemTypeAccountDoesNotExist {
+			if i == 0 && errors.As(err, &prob) && prob.Type == acme.ProblemTypeAccountDoesNotExist {
 				am.Logger.Warn("ACME account does not exist on server; attempting to recreate",
 					zap.String("account_id", client.account.Location),
 					zap.Strings("account_contact", client.account.Contact),
@@ -510,6 +510,7 @@ func (am *ACMEIssuer) doIssue(ctx context.Context, csr *x509.CertificateRequest,
 				if err != nil {
 					return nil, false, err
 				}
+				params.Account = client.account
 				continue
 			}
 			return nil, usingTestCA, fmt.Errorf("%v %w (ca=%s)", nameSet, err, client.acmeClient.Directory)
